@@ -22,12 +22,16 @@ class ConfigCowRef : public ConfigItemRef {
     return container ? Read(container, key_) : nullptr;
   }
   void SetItem(an<ConfigItem> item) override {
-    auto container = As<T>(**parent_);
     if (!copied_) {
-      *parent_ = container = CopyOnWrite(container, key_);
+      // copy (or create) the container once and keep writing to that copy:
+      // looking it up through the parent again is not reliable, the key of a
+      // parent list reference (e.g. `@before last`) denotes another element
+      // once the parent has been written, possibly a shared one
+      container_ = CopyOnWrite(As<T>(**parent_), key_);
+      *parent_ = container_;
       copied_ = true;
     }
-    Write(container, key_, item);
+    Write(container_, key_, item);
   }
 
  protected:
@@ -39,6 +43,7 @@ class ConfigCowRef : public ConfigItemRef {
 
   an<ConfigItemRef> parent_;
   string key_;
+  an<T> container_;
   bool copied_ = false;
 };
 
